@@ -577,21 +577,26 @@ func evalSM(m *envoy_matcher_v3.StringMatcher, v string) bool {
 	panic(evalErr{"unsupported string matcher"})
 }
 
-func evalHeader(h *envoy_route_v3.HeaderMatcher, hdrs map[string]string) bool {
+// evalHeader follows HeaderUtility::matchHeaders for a matcher without treat_missing_header_as_empty
+// (consul never sets it): on an ABSENT header a value matcher "is ignored, will not match" even
+// with invert_match; only present_match is inverted (route_components.proto, HeaderMatcher).
+// lenient is a DIAGNOSTIC mode used only to attribute a disagreement: there an inverted value
+// matcher matches an absent header (consul's reading of Invert).
+func evalHeader(h *envoy_route_v3.HeaderMatcher, hdrs map[string]string, lenient bool) bool {
 	if h.TreatMissingHeaderAsEmpty {
 		panic(evalErr{"unsupported header option"})
 	}
 	v, present := hdrs[strings.ToLower(h.Name)]
-	var res bool
 	switch s := h.HeaderMatchSpecifier.(type) {
 	case *envoy_route_v3.HeaderMatcher_PresentMatch:
-		res = present == s.PresentMatch
+		return (present == s.PresentMatch) != h.InvertMatch
 	case *envoy_route_v3.HeaderMatcher_StringMatch:
-		res = present && evalSM(s.StringMatch, v)
-	default:
-		panic(evalErr{"unsupported header matcher"})
+		if !present {
+			return lenient && h.InvertMatch
+		}
+		return evalSM(s.StringMatch, v) != h.InvertMatch
 	}
-	return res != h.InvertMatch
+	panic(evalErr{"unsupported header matcher"})
 }
 
 // Connection: URI SAN of the client certificate, and the request's XFCC header (absent = "").
@@ -622,7 +627,7 @@ func evalPrincipal(p *envoy_rbac_v3.Principal, c *Conn) bool {
 		if strings.ToLower(id.Header.Name) != xfccName {
 			panic(evalErr{"header principal on " + id.Header.Name})
 		}
-		return evalHeader(id.Header, h)
+		return evalHeader(id.Header, h, false)
 	case *envoy_rbac_v3.Principal_AndIds:
 		for _, x := range id.AndIds.Ids {
 			if !evalPrincipal(x, c) {
@@ -643,7 +648,7 @@ func evalPrincipal(p *envoy_rbac_v3.Principal, c *Conn) bool {
 	panic(evalErr{"unsupported principal"})
 }
 
-func evalPermission(p *envoy_rbac_v3.Permission, q *Req) bool {
+func evalPermission(p *envoy_rbac_v3.Permission, q *Req, lenient bool) bool {
 	switch r := p.Rule.(type) {
 	case *envoy_rbac_v3.Permission_Any:
 		return r.Any
@@ -654,29 +659,29 @@ func evalPermission(p *envoy_rbac_v3.Permission, q *Req) bool {
 		}
 		return evalSM(pm.Path, q.Path)
 	case *envoy_rbac_v3.Permission_Header:
-		return evalHeader(r.Header, q.Headers)
+		return evalHeader(r.Header, q.Headers, lenient)
 	case *envoy_rbac_v3.Permission_AndRules:
 		for _, x := range r.AndRules.Rules {
-			if !evalPermission(x, q) {
+			if !evalPermission(x, q, lenient) {
 				return false
 			}
 		}
 		return true
 	case *envoy_rbac_v3.Permission_OrRules:
 		for _, x := range r.OrRules.Rules {
-			if evalPermission(x, q) {
+			if evalPermission(x, q, lenient) {
 				return true
 			}
 		}
 		return false
 	case *envoy_rbac_v3.Permission_NotRule:
-		return !evalPermission(r.NotRule, q)
+		return !evalPermission(r.NotRule, q, lenient)
 	}
 	panic(evalErr{"unsupported permission"})
 }
 
 // evalRBAC: ALLOW filter allows iff some policy matches, DENY filter allows iff none does.
-func evalRBAC(r *envoy_rbac_v3.RBAC, c *Conn, q *Req) bool {
+func evalRBAC(r *envoy_rbac_v3.RBAC, c *Conn, q *Req, lenient bool) bool {
 	matched := false
 	for _, pol := range r.Policies {
 		pm := false
@@ -690,7 +695,7 @@ func evalRBAC(r *envoy_rbac_v3.RBAC, c *Conn, q *Req) bool {
 			continue
 		}
 		for _, p := range pol.Permissions {
-			if evalPermission(p, q) {
+			if evalPermission(p, q, lenient) {
 				matched = true
 				break
 			}
@@ -751,6 +756,12 @@ func (p Presented) conn() *Conn {
 
 type nameMatch func(pattern, name string) bool
 
+// diagnostic only: which spliced text is read as an unescaped regex when attributing a disagreement
+type blur struct {
+	name   nameMatch
+	td, ap bool
+}
+
 func exactName(p, n string) bool { return p == n }
 
 // diagnostic only (classification of a disagreement): the name is read as an unescaped regex
@@ -768,7 +779,7 @@ func lowerOrDefault(s string) string {
 
 // does the source of the intention cover the identity?  consul's own matcher decides on
 // (name, namespace, peer); the trust domain and partition tie the identity to the cluster.
-func ixnCovers(in *Input, x *structs.Intention, id *Ident, nm nameMatch) bool {
+func ixnCovers(in *Input, x *structs.Intention, id *Ident, bl *blur) bool {
 	if id.Kind != "service" {
 		return false
 	}
@@ -784,17 +795,28 @@ func ixnCovers(in *Input, x *structs.Intention, id *Ident, nm nameMatch) bool {
 			return false
 		}
 	}
-	if id.TD != td || id.AP != ap {
+	if bl != nil && bl.td {
+		if !regexName(td, id.TD) {
+			return false
+		}
+	} else if id.TD != td {
 		return false
 	}
-	if nm == nil {
+	if bl != nil && bl.ap {
+		if !regexName(ap, id.AP) {
+			return false
+		}
+	} else if id.AP != ap {
+		return false
+	}
+	if bl == nil {
 		return connect.IntentionMatch(id.Svc, id.NS, "", x.SourcePeer, x, structs.IntentionMatchSource)
 	}
 	// diagnostic variant
 	if x.SourceNS != structs.WildcardSpecifier && x.SourceNS != id.NS {
 		return false
 	}
-	return x.SourceName == structs.WildcardSpecifier || nm(x.SourceName, id.Svc)
+	return x.SourceName == structs.WildcardSpecifier || bl.name(x.SourceName, id.Svc)
 }
 
 func xfccMode(in *Input) bool {
@@ -811,14 +833,14 @@ func xfccMode(in *Input) bool {
 
 // Which identity does the connection establish for an intention?  Peer identities reach an HTTP
 // listener that expects peered traffic only through the local mesh gateway, in the first XFCC element.
-func ixnMatchesConn(in *Input, x *structs.Intention, p *Presented, mode bool, nm nameMatch) bool {
+func ixnMatchesConn(in *Input, x *structs.Intention, p *Presented, mode bool, bl *blur) bool {
 	if mode && x.SourcePeer != "" {
 		if !(p.TLS.Kind == "gateway" && p.TLS.TD == in.TD) || p.XFCC == nil {
 			return false
 		}
-		return ixnCovers(in, x, p.XFCC, nm)
+		return ixnCovers(in, x, p.XFCC, bl)
 	}
-	return ixnCovers(in, x, &p.TLS, nm)
+	return ixnCovers(in, x, &p.TLS, bl)
 }
 
 func hdrMatches(h *structs.IntentionHTTPHeaderPermission, q *Req) bool {
@@ -894,9 +916,9 @@ func permMatches(p *structs.IntentionPermission, q *Req) bool {
 
 // the precedence decision.  sorted: the intentions in consul's precedence order.
 // decider: index (in sorted) of the first intention whose source covers the connection, -1 for none.
-func decider(in *Input, sorted structs.Intentions, p *Presented, mode bool, nm nameMatch) int {
+func decider(in *Input, sorted structs.Intentions, p *Presented, mode bool, bl *blur) int {
 	for k, x := range sorted {
-		if ixnMatchesConn(in, x, p, mode, nm) {
+		if ixnMatchesConn(in, x, p, mode, bl) {
 			return k
 		}
 	}
@@ -923,8 +945,8 @@ func decideReq(in *Input, sorted structs.Intentions, k int, q *Req) bool {
 	return in.DefaultAllow
 }
 
-func reference(in *Input, sorted structs.Intentions, p *Presented, q *Req, mode bool, nm nameMatch) (bool, int) {
-	k := decider(in, sorted, p, mode, nm)
+func reference(in *Input, sorted structs.Intentions, p *Presented, q *Req, mode bool, bl *blur) (bool, int) {
+	k := decider(in, sorted, p, mode, bl)
 	return decideReq(in, sorted, k, q), k
 }
 
@@ -996,6 +1018,18 @@ func connections(in *Input) []Presented {
 				if c.ap != "default" {
 					ids = append(ids, Ident{"service", c.td, "default", "default", "dc1", n})
 				}
+			}
+		}
+	}
+	// near-misses of the cluster fields that are spliced into the pattern unquoted: a '.' of the
+	// trust domain / partition replaced by another character
+	for _, c := range clusters[:len(clusters)-1] {
+		for _, n := range names[:1] {
+			if strings.Contains(c.td, ".") {
+				ids = append(ids, Ident{"service", strings.Replace(c.td, ".", "x", 1), c.ap, "default", "dc1", n})
+			}
+			if strings.Contains(c.ap, ".") {
+				ids = append(ids, Ident{"service", c.td, strings.Replace(c.ap, ".", "x", 1), "default", "dc1", n})
 			}
 		}
 	}
@@ -1075,6 +1109,41 @@ func requests(in *Input) []Req {
 			}
 		}
 	}
+	// requests carrying SEVERAL headers: for a permission with two or more header matchers, all of
+	// them satisfied, and exactly one violated (wrong value / header dropped)
+	good := func(hd Hdr) string {
+		switch {
+		case hd.Exact != "":
+			return hd.Exact
+		case hd.Prefix != "":
+			return hd.Prefix + "-more"
+		case hd.Suffix != "":
+			return "more-" + hd.Suffix
+		case hd.Contains != "":
+			return "a" + hd.Contains + "b"
+		case hd.Regex != "":
+			return "abc"
+		}
+		return "1"
+	}
+	for _, x := range in.Ixns {
+		for _, p := range x.Perms {
+			if p.HTTP == nil || len(p.HTTP.Header) < 2 {
+				continue
+			}
+			var all []hv
+			for _, hd := range p.HTTP.Header {
+				all = append(all, hv{strings.ToLower(hd.Name), good(hd)})
+			}
+			hvs = append(hvs, all)
+			for k := range all {
+				bad := append([]hv{}, all...)
+				bad[k].val = "zzz"
+				hvs = append(hvs, bad)
+				hvs = append(hvs, append(append([]hv{}, all[:k]...), all[k+1:]...))
+			}
+		}
+	}
 	paths, methods = uniq(paths), uniq(methods)
 	// headers: dedupe
 	seenH := map[string]bool{}
@@ -1117,10 +1186,19 @@ type Finding struct {
 	Sig    map[string]any `json:"signature"`
 	Replay Replay         `json:"replay"`
 	Count  int            `json:"count"`
+	Coq    *FindingCase   `json:"coq,omitempty"` // the shrunk replay as a case for the Coq model
+}
+
+// FindingCase: the shrunk input, what the implementation produces for it, and the disagreeing point.
+type FindingCase struct {
+	Input   Input    `json:"input"`
+	Impl    *RbacAST `json:"impl"`
+	Samples []Sample `json:"samples"`
 }
 
 type oracleStats struct {
 	Conns, Reqs, Evals, Disagreements int
+	ByCause                           map[string]int
 	Samples                           []Sample
 }
 
@@ -1207,8 +1285,70 @@ func mkSample(in *Input, p *Presented, q *Req, got, want bool) Sample {
 	return sm
 }
 
-// disagree reports whether implementation and reference disagree on one (connection, request).
-func disagree(in *Input, p *Presented, q *Req) (dis bool, got, want bool, problem string) {
+// ---- attribution of a disagreement -------------------------------------------------------------
+//
+// A disagreement between the produced RBAC and the precedence decision is attributed to a CAUSE by
+// counterfactual runs of the real translator (never by loosening the oracle):
+//   shadow           the disagreement disappears when the intentions whose source is strictly
+//                    contained in a kept higher-precedence source are removed from the INPUT (this is
+//                    what the proposed repair removeShadowedSourceIntentions does inside the translator);
+//   inverted-header  it disappears when the evaluator lets an inverted value matcher match an absent
+//                    header (consul's reading of Invert) instead of Envoy's "ignored, will not match";
+//   both             it needs both counterfactuals;
+//   ""               unexplained.
+// Only disagreements with a cause, shrunk under "same point, same cause", can match a known finding.
+
+func hasBundle(in *Input, peer string) bool {
+	for _, b := range in.Bundles {
+		if b.Peer == peer {
+			return true
+		}
+	}
+	return false
+}
+
+// dropShadowed: the input without the intentions the proposed repair would drop.
+func dropShadowed(in *Input) Input {
+	out := *in
+	out.Ixns = nil
+	var kept []Ixn
+	for _, sx := range sortedIxns(in) {
+		x := fromStruct(sx)
+		if x.SrcPeer != "" && !hasBundle(in, x.SrcPeer) {
+			out.Ixns = append(out.Ixns, x) // dropped by the translator anyway, shadows nothing
+			continue
+		}
+		shadowed := false
+		for _, k := range kept {
+			if k.SrcPeer == x.SrcPeer && k.SrcName == "*" && x.SrcName != "*" {
+				shadowed = true
+			}
+		}
+		if !shadowed {
+			kept = append(kept, x)
+			out.Ixns = append(out.Ixns, x)
+		}
+	}
+	if out.Ixns == nil {
+		out.Ixns = []Ixn{}
+	}
+	return out
+}
+
+func causeOf(want, gotRed, gotLen, gotBoth bool) string {
+	switch {
+	case gotRed == want:
+		return "shadow"
+	case gotLen == want:
+		return "inverted-header"
+	case gotBoth == want:
+		return "shadow+inverted-header"
+	}
+	return ""
+}
+
+// diagnose one (connection, request) on one input: disagreement, verdicts, cause.
+func diagnose(in *Input, p *Presented, q *Req) (dis bool, got, want bool, cause, problem string) {
 	defer func() {
 		if e := recover(); e != nil {
 			if ee, ok := e.(evalErr); ok {
@@ -1220,14 +1360,30 @@ func disagree(in *Input, p *Presented, q *Req) (dis bool, got, want bool, proble
 	}()
 	r, errs := runImpl(*in)
 	if errs != "" {
-		return true, false, false, errs
+		return true, false, false, "", errs
 	}
 	if bad := validateRegexes(r); bad != "" {
-		return true, false, false, bad
+		return true, false, false, "", bad
 	}
 	want, _ = reference(in, sortedIxns(in), p, q, xfccMode(in), nil)
-	got = evalRBAC(r, p.conn(), q)
-	return got != want, got, want, ""
+	c := p.conn()
+	got = evalRBAC(r, c, q, false)
+	if got == want {
+		return false, got, want, "", ""
+	}
+	red := dropShadowed(in)
+	rRed := r
+	if len(red.Ixns) != len(in.Ixns) {
+		if rr, e2 := runImpl(red); e2 == "" {
+			rRed = rr
+		}
+	}
+	return true, got, want, causeOf(want, evalRBAC(rRed, c, q, false), evalRBAC(r, c, q, true), evalRBAC(rRed, c, q, true)), ""
+}
+
+func disagree(in *Input, p *Presented, q *Req) (dis bool, got, want bool, problem string) {
+	dis, got, want, _, problem = diagnose(in, p, q)
+	return
 }
 
 func without(l []Ixn, k int) []Ixn {
@@ -1235,14 +1391,19 @@ func without(l []Ixn, k int) []Ixn {
 	return append(out, l[k+1:]...)
 }
 
-// shrink: drop intentions, then permissions, while the same (connection, request) still disagrees.
-func shrink(in Input, p *Presented, q *Req) Input {
+// shrink: drop intentions, then permissions, then bundles, while the same (connection, request)
+// still disagrees FOR THE SAME CAUSE (and with the same kind of problem).
+func shrink(in Input, p *Presented, q *Req, cause string, hasProblem bool) Input {
+	same := func(c *Input) bool {
+		d, _, _, cs, pr := diagnose(c, p, q)
+		return d && cs == cause && (pr != "") == hasProblem
+	}
 	for changed := true; changed; {
 		changed = false
 		for k := range in.Ixns {
 			c := in
 			c.Ixns = without(in.Ixns, k)
-			if d, _, _, _ := disagree(&c, p, q); d {
+			if same(&c) {
 				in, changed = c, true
 				break
 			}
@@ -1260,7 +1421,7 @@ func shrink(in Input, p *Presented, q *Req) Input {
 				x := c.Ixns[k]
 				x.Perms = append(append([]Perm{}, x.Perms[:j]...), x.Perms[j+1:]...)
 				c.Ixns[k] = x
-				if d, _, _, _ := disagree(&c, p, q); d {
+				if same(&c) {
 					in, changed = c, true
 					break
 				}
@@ -1276,7 +1437,7 @@ func shrink(in Input, p *Presented, q *Req) Input {
 				if xfccMode(&c) != xfccMode(&in) {
 					continue
 				}
-				if d, _, _, _ := disagree(&c, p, q); d {
+				if same(&c) {
 					in, changed = c, true
 					break
 				}
@@ -1291,6 +1452,16 @@ func srcShape(x Ixn) string {
 		return "wildcard"
 	}
 	return "exact"
+}
+
+func ixnKind(x Ixn) string {
+	if len(x.Perms) > 0 {
+		return "l7"
+	}
+	if x.Action == "allow" {
+		return "allow"
+	}
+	return "deny"
 }
 
 // relation of the source of a to the source of b (by consul's own wildcard rules)
@@ -1309,8 +1480,34 @@ func srcRelation(a, b Ixn) string {
 	return "disjoint"
 }
 
-// signature of a shrunk disagreement: kind + distinguishing shape, never the concrete names.
-func classify(in *Input, p *Presented, q *Req, got, want bool, problem string) map[string]any {
+// does some permission carry an inverted VALUE matcher on a header the request lacks?
+func invertedValueMatcherOnAbsentHeader(in *Input, q *Req) bool {
+	for _, x := range in.Ixns {
+		for _, pm := range x.Perms {
+			if pm.HTTP == nil {
+				continue
+			}
+			for _, h := range pm.HTTP.Header {
+				value := h.Exact != "" || h.Prefix != "" || h.Suffix != "" || h.Contains != "" || h.Regex != ""
+				if _, present := q.Headers[strings.ToLower(h.Name)]; h.Invert && value && !present {
+					return true
+				}
+			}
+		}
+	}
+	return false
+}
+
+func direction(in *Input, got bool) string {
+	// C14_nondefault_kept: for the shadow defect the RBAC can only err TOWARDS the non-default action
+	if got != in.DefaultAllow {
+		return "rbac-nondefault"
+	}
+	return "rbac-default"
+}
+
+// signature of a shrunk disagreement: kind + cause + distinguishing shape, never the concrete names.
+func classify(in *Input, p *Presented, q *Req, got, want bool, cause, problem string) map[string]any {
 	sig := map[string]any{"n_ixns": len(in.Ixns)}
 	if strings.HasPrefix(problem, "invalid-regex") {
 		// is the offending regex one the code built from a name?
@@ -1327,30 +1524,57 @@ func classify(in *Input, p *Presented, q *Req, got, want bool, problem string) m
 		sig["kind"], sig["problem"] = "implementation-error", problem
 		return sig
 	}
-	// diagnostic: does reading source names as unescaped regexes explain the implementation's answer?
 	mode := xfccMode(in)
-	blur, _ := reference(in, sortedIxns(in), p, q, mode, regexName)
+	sig["direction"] = direction(in, got)
+	sig["xfcc_mode"] = mode
+	pairShape := func() {
+		if len(in.Ixns) == 2 {
+			s := sortedIxns(in)
+			hi, lo := fromStruct(s[0]), fromStruct(s[1])
+			sig["higher_source"], sig["lower_source"] = srcShape(hi), srcShape(lo)
+			sig["higher_kind"], sig["lower_kind"] = ixnKind(hi), ixnKind(lo)
+			sig["source_relation"] = "higher-" + srcRelation(hi, lo) + "-lower"
+			sig["same_destination"] = hi.DstName == lo.DstName && hi.DstNS == lo.DstNS
+		}
+	}
+	switch cause {
+	case "shadow":
+		sig["kind"], sig["cause"] = "precedence-removal", "dropping-shadowed-intentions-restores-precedence"
+		pairShape()
+		return sig
+	case "inverted-header":
+		sig["kind"], sig["cause"] = "inverted-header-missing", "inverted-value-matcher-on-absent-header-ignored-by-envoy"
+		sig["header_absent"] = invertedValueMatcherOnAbsentHeader(in, q)
+		return sig
+	case "shadow+inverted-header":
+		sig["kind"], sig["cause"] = "precedence-removal+inverted-header-missing", "needs-both-counterfactuals"
+		sig["header_absent"] = invertedValueMatcherOnAbsentHeader(in, q)
+		pairShape()
+		return sig
+	}
+	// unexplained by the two open findings.  Diagnostics for spliced text read as unescaped regex:
 	hasMeta := false
 	for _, x := range in.Ixns {
 		if x.SrcName != "*" && metaName(x.SrcName) {
 			hasMeta = true
 		}
 	}
-	if hasMeta && blur == got {
+	sorted := sortedIxns(in)
+	if b, _ := reference(in, sorted, p, q, mode, &blur{name: regexName}); hasMeta && b == got {
 		sig["kind"], sig["metachar_in"] = "regex-unescaped-name", "source-name"
 		sig["effect"] = map[bool]string{true: "caller-matched-by-pattern-of-other-name", false: "own-name-not-matched"}[callerIsNearMiss(in, p)]
 		return sig
 	}
-	sig["kind"] = "decision-mismatch"
-	if len(in.Ixns) == 2 {
-		sig["kind"] = "precedence-removal"
-		s := sortedIxns(in)
-		hi, lo := fromStruct(s[0]), fromStruct(s[1])
-		sig["higher_source"], sig["lower_source"] = srcShape(hi), srcShape(lo)
-		sig["source_relation"] = "higher-" + srcRelation(hi, lo) + "-lower"
-		sig["same_destination"] = hi.DstName == lo.DstName && hi.DstNS == lo.DstNS
-		sig["xfcc_mode"] = mode
+	if b, _ := reference(in, sorted, p, q, mode, &blur{name: exactName, td: true}); b == got {
+		sig["kind"], sig["metachar_in"] = "regex-unescaped-cluster-field", "trust-domain"
+		return sig
 	}
+	if b, _ := reference(in, sorted, p, q, mode, &blur{name: exactName, ap: true}); b == got {
+		sig["kind"], sig["metachar_in"] = "regex-unescaped-cluster-field", "partition"
+		return sig
+	}
+	sig["kind"] = "decision-mismatch"
+	pairShape()
 	return sig
 }
 
@@ -1367,79 +1591,132 @@ func callerIsNearMiss(in *Input, p *Presented) bool {
 	return false
 }
 
+type polTab struct {
+	princ []bool
+	perm  []bool // strict (Envoy) header semantics
+	permL []bool // lenient, diagnostic
+}
+
+func tabulateRBAC(r *envoy_rbac_v3.RBAC, conns []Presented, reqs []Req) (tabs []polTab, problem string) {
+	defer func() {
+		if e := recover(); e != nil {
+			if ee, ok := e.(evalErr); ok {
+				problem = ee.msg
+				return
+			}
+			panic(e)
+		}
+	}()
+	for _, pol := range r.Policies {
+		t := polTab{make([]bool, len(conns)), make([]bool, len(reqs)), make([]bool, len(reqs))}
+		for ci := range conns {
+			c := conns[ci].conn()
+			for _, p := range pol.Principals {
+				if evalPrincipal(p, c) {
+					t.princ[ci] = true
+					break
+				}
+			}
+		}
+		for qi := range reqs {
+			for _, p := range pol.Permissions {
+				if evalPermission(p, &reqs[qi], false) {
+					t.perm[qi] = true
+					break
+				}
+			}
+			for _, p := range pol.Permissions {
+				if evalPermission(p, &reqs[qi], true) {
+					t.permL[qi] = true
+					break
+				}
+			}
+		}
+		tabs = append(tabs, t)
+	}
+	return
+}
+
+func verdictFromTabs(r *envoy_rbac_v3.RBAC, tabs []polTab, ci, qi int, lenient bool) bool {
+	matched := false
+	for _, t := range tabs {
+		pm := t.perm[qi]
+		if lenient {
+			pm = t.permL[qi]
+		}
+		if t.princ[ci] && pm {
+			matched = true
+			break
+		}
+	}
+	if r.Action != envoy_rbac_v3.RBAC_ALLOW {
+		return !matched
+	}
+	return matched
+}
+
 // oracle evaluates the produced RBAC against the whole universe.  Principals depend only on
 // the connection and permissions only on the request, so both are tabulated once.
-func oracle(in *Input, r *envoy_rbac_v3.RBAC) (findings []Finding, st oracleStats) {
+func oracle(in *Input, r *envoy_rbac_v3.RBAC, wantCoq bool) (findings []Finding, st oracleStats) {
 	conns := connections(in)
 	reqs := requests(in)
 	st.Conns, st.Reqs = len(conns), len(reqs)
+	st.ByCause = map[string]int{}
 	sorted := sortedIxns(in)
 	mode := xfccMode(in)
 	bySig := map[string]int{}
-	report := func(p *Presented, q *Req, got, want bool, problem string) {
-		st.Disagreements++
-		if st.Disagreements > 400 { // enough material; the classes repeat
+	shrunkPerCause := map[string]int{}
+	report := func(p *Presented, q *Req, cause, problem string) {
+		lim := 2
+		if cause == "" {
+			lim = 30 // unexplained disagreements are never waved through: look at many of them
+		}
+		if shrunkPerCause[cause] >= lim {
 			return
 		}
-		small := shrink(*in, p, q)
-		_, g2, w2, pr2 := disagree(&small, p, q)
-		sig := classify(&small, p, q, g2, w2, pr2)
+		shrunkPerCause[cause]++
+		small := shrink(*in, p, q, cause, problem != "")
+		_, g2, w2, c2, pr2 := diagnose(&small, p, q)
+		sig := classify(&small, p, q, g2, w2, c2, pr2)
 		k, _ := json.Marshal(sig)
 		if i, ok := bySig[string(k)]; ok {
 			findings[i].Count++
 			return
 		}
 		bySig[string(k)] = len(findings)
-		findings = append(findings, Finding{Sig: sig, Count: 1,
-			Replay: Replay{Input: small, Presented: *p, Conn: *p.conn(), Req: *q, RBAC: g2, Expected: w2, Problem: pr2}})
-	}
-	type polTab struct {
-		princ []bool
-		perm  []bool
-	}
-	var tabs []polTab
-	problem := validateRegexes(r)
-	if problem != "" {
-		report(&conns[0], &reqs[0], false, false, problem)
-		return
-	}
-	func() {
-		defer func() {
-			if e := recover(); e != nil {
-				if ee, ok := e.(evalErr); ok {
-					problem = ee.msg
-					return
-				}
-				panic(e)
-			}
-		}()
-		for _, pol := range r.Policies {
-			t := polTab{make([]bool, len(conns)), make([]bool, len(reqs))}
-			for ci := range conns {
-				c := conns[ci].conn()
-				for _, p := range pol.Principals {
-					if evalPrincipal(p, c) {
-						t.princ[ci] = true
-						break
-					}
+		f := Finding{Sig: sig, Count: 1,
+			Replay: Replay{Input: small, Presented: *p, Conn: *p.conn(), Req: *q, RBAC: g2, Expected: w2, Problem: pr2}}
+		if pr2 == "" && inFragment(&small) {
+			if r2, e2 := runImpl(small); e2 == "" {
+				if ast, prob := rbacToAST(r2); prob == "" {
+					f.Coq = &FindingCase{Input: small, Impl: ast, Samples: []Sample{mkSample(&small, p, q, g2, w2)}}
 				}
 			}
-			for qi := range reqs {
-				for _, p := range pol.Permissions {
-					if evalPermission(p, &reqs[qi]) {
-						t.perm[qi] = true
-						break
-					}
-				}
-			}
-			tabs = append(tabs, t)
 		}
-	}()
-	if problem != "" {
-		report(&conns[0], &reqs[0], false, false, problem)
+		findings = append(findings, f)
+	}
+	if problem := validateRegexes(r); problem != "" {
+		st.Disagreements++
+		report(&conns[0], &reqs[0], "", problem)
 		return
 	}
-	sampling := inFragment(in)
+	tabs, problem := tabulateRBAC(r, conns, reqs)
+	if problem != "" {
+		st.Disagreements++
+		report(&conns[0], &reqs[0], "", problem)
+		return
+	}
+	// the counterfactual input of the proposed repair
+	red := dropShadowed(in)
+	rRed, tabsRed := r, tabs
+	if len(red.Ixns) != len(in.Ixns) {
+		if rr, e2 := runImpl(red); e2 == "" && validateRegexes(rr) == "" {
+			if tt, pr := tabulateRBAC(rr, conns, reqs); pr == "" {
+				rRed, tabsRed = rr, tt
+			}
+		}
+	}
+	sampling := wantCoq && inFragment(in)
 	total := len(conns) * len(reqs)
 	stride := total/4 + 1
 	offset := (len(in.Ixns)*7 + len(conns)) % stride
@@ -1449,24 +1726,18 @@ func oracle(in *Input, r *envoy_rbac_v3.RBAC) (findings []Finding, st oracleStat
 		k := decider(in, sorted, &conns[ci], mode, nil)
 		for qi := range reqs {
 			want := decideReq(in, sorted, k, &reqs[qi])
-			matched := false
-			for _, t := range tabs {
-				if t.princ[ci] && t.perm[qi] {
-					matched = true
-					break
-				}
-			}
-			got := matched
-			if r.Action != envoy_rbac_v3.RBAC_ALLOW {
-				got = !matched
-			}
+			got := verdictFromTabs(r, tabs, ci, qi, false)
 			st.Evals++
 			if sampling && ((ci*len(reqs)+qi)%stride == offset || (got != want && nDis < 2)) {
 				st.Samples = append(st.Samples, mkSample(in, &conns[ci], &reqs[qi], got, want))
 			}
 			if got != want {
 				nDis++
-				report(&conns[ci], &reqs[qi], got, want, "")
+				st.Disagreements++
+				cause := causeOf(want, verdictFromTabs(rRed, tabsRed, ci, qi, false),
+					verdictFromTabs(r, tabs, ci, qi, true), verdictFromTabs(rRed, tabsRed, ci, qi, true))
+				st.ByCause[cause]++
+				report(&conns[ci], &reqs[qi], cause, "")
 			}
 		}
 	}
@@ -1566,6 +1837,7 @@ type Case struct {
 	Reqs     int       `json:"reqs"`
 	Evals    int       `json:"evals"`
 	Disagree int       `json:"disagreements"`
+	ByCause  map[string]int `json:"disagreements_by_cause"`
 	Samples  []Sample  `json:"samples"`
 }
 
@@ -1590,8 +1862,8 @@ func process(c *Case, withOracle bool) {
 	if msg := referenceSelfCheck(in); msg != "" {
 		c.Problems = append(c.Problems, msg)
 	}
-	fs, st := oracle(in, r)
-	c.Conns, c.Reqs, c.Evals, c.Disagree = st.Conns, st.Reqs, st.Evals, st.Disagreements
+	fs, st := oracle(in, r, c.ToCoq)
+	c.Conns, c.Reqs, c.Evals, c.Disagree, c.ByCause = st.Conns, st.Reqs, st.Evals, st.Disagreements, st.ByCause
 	if c.ToCoq && st.Samples != nil {
 		c.Samples = st.Samples
 	}
@@ -1637,6 +1909,8 @@ var l7Variants = [][]Perm{
 	{httpPerm("deny", HTTP{PathPrefix: "/admin"}), httpPerm("allow", HTTP{PathPrefix: "/"})},
 	{httpPerm("allow", HTTP{PathRegex: "/v[12]/.*", Methods: []string{"GET", "POST"}}),
 		httpPerm("deny", HTTP{Header: []Hdr{{Name: "x-debug", Present: true}}})},
+	{httpPerm("deny", HTTP{Header: []Hdr{{Name: "x-internal", Exact: "yes", Invert: true}, {Name: "x-team", Suffix: "-ops"}}}),
+		httpPerm("allow", HTTP{PathPrefix: "/", Header: []Hdr{{Name: "x-trace", Contains: "abc", IgnoreCase: true}}})},
 	{httpPerm("allow", HTTP{Header: []Hdr{{Name: "X-Role", Exact: "admin", IgnoreCase: true}}}),
 		httpPerm("deny", HTTP{Methods: []string{"DELETE"}})},
 }
@@ -1963,6 +2237,20 @@ func (g *gen) store(n int) {
 	}
 }
 
+// oddCluster: a peer whose exported partition contains a regex metacharacter (spliced unquoted)
+func (g *gen) oddCluster(n int) {
+	for c := 0; c < n; c++ {
+		in := baseInput(false)
+		in.Bundles = []Bundle{{Peer: "peer1", TD: peer1TD, ExpAP: "part.1"}}
+		in.Ixns = []Ixn{mkIxn(g.pick([]string{"web", "*"}), "peer1", "db", g.pick([]string{"allow", "deny"}), nil)}
+		if g.rng.Intn(2) == 0 {
+			in.Ixns = append(in.Ixns, mkIxn("api", "", "db", g.pick([]string{"allow", "deny"}), nil))
+		}
+		in.DefaultAllow, in.HTTP = g.rng.Intn(2) == 0, g.rng.Intn(2) == 0
+		g.add("odd-cluster", in, c%2 == 0, true)
+	}
+}
+
 // fixed: the catalogue of the upstream golden tests' shapes and the two witnesses
 func (g *gen) fixed() {
 	for _, da := range []bool{false, true} {
@@ -1975,6 +2263,12 @@ func (g *gen) fixed() {
 			in.Ixns = []Ixn{mkIxn("web.v1", "", "db", "allow", nil)}
 			in.DefaultAllow, in.HTTP = da, http
 			g.add("witness-regex", in, true, true)
+			in = baseInput(false)
+			in.Ixns = []Ixn{mkIxn("web", "", "db", "", []Perm{
+				httpPerm("deny", HTTP{Header: []Hdr{{Name: "x-internal", Exact: "yes", Invert: true}}}),
+				httpPerm("allow", HTTP{PathPrefix: "/"})})}
+			in.DefaultAllow, in.HTTP = da, http
+			g.add("witness-inverted-header", in, true, true)
 			in = baseInput(true)
 			in.Ixns = []Ixn{mkIxn("web", "", "db", "allow", nil), mkIxn("*", "", "db", "deny", nil), mkIxn("web", "", "*", "deny", nil),
 				mkIxn("api", "peer1", "db", "", l7Variants[1]), mkIxn("*", "peer1", "db", "deny", nil)}
@@ -2038,9 +2332,9 @@ func replay(path string) int {
 	ast, _ := rbacToAST(r)
 	js, _ := json.MarshalIndent(ast, "", " ")
 	fmt.Println(string(js))
-	d, got, want, problem := disagree(&in, &rp.Presented, &rp.Req)
-	fmt.Printf("connection tls=%s xfcc=%q request=%v\nrbac allows: %v   precedence allows: %v   %s\n",
-		rp.Presented.conn().TLS, rp.Presented.conn().XFCC, rp.Req, got, want, problem)
+	d, got, want, cause, problem := diagnose(&in, &rp.Presented, &rp.Req)
+	fmt.Printf("connection tls=%s xfcc=%q request=%v\nrbac allows: %v   precedence allows: %v   cause=%q %s\n",
+		rp.Presented.conn().TLS, rp.Presented.conn().XFCC, rp.Req, got, want, cause, problem)
 	if d {
 		fmt.Println("DISAGREE")
 		return 1
@@ -2063,17 +2357,19 @@ func main() {
 	g.fixed()
 	names := []string{"web", "api", "web.v1", "db2", "*", "*"}
 	if *tier == "thorough" {
-		g.exhaustive(3, 3, 29)
+		g.exhaustive(3, 4, 43)
 		g.random(6000, 5, names)
 		g.random(600, 3, append(names, "a|b", "c++"))
 		g.malformed(1200)
 		g.store(1200)
+		g.oddCluster(120)
 	} else {
-		g.exhaustive(2, 3, 23)
+		g.exhaustive(2, 4, 29)
 		g.random(1200, 8, names)
 		g.random(200, 4, append(names, "a|b", "c++", "x(y", "web.v1"))
 		g.malformed(120)
 		g.store(90)
+		g.oddCluster(24)
 	}
 	// run (bounded parallelism)
 	var wg sync.WaitGroup
